@@ -188,11 +188,15 @@ def run(ctx):
         c.desc.update({"monitor": "iso", "entry": entry, "callseed": seed})
         ctx.count("iso." + entry)
         opts = rand_options(rng)
+        kk_ = None
+        if rng.random() < 0.25 and entry != "op":
+            # the (undocumented but validated) regularisation option of the 'ldl' KKT solver must follow options= too
+            opts["kktreg"] = rng.choice([1e-8, 1e-6]); kk_ = "ldl"
         # --- immutability + global state, options= kwarg, poisoned globals
         saved = dict(solvers.options)
         solvers.options.clear(); solvers.options.update(POISON)
         im0, gs0, o0, g0 = call.images(), module_state(), copy.deepcopy(opts), copy.deepcopy(dict(solvers.options))
-        r_kw = run_frozen(call, options=opts)
+        r_kw = run_frozen(call, options=opts, kkt=kk_)
         im1, gs1 = call.images(), module_state()
         ctx.count("immutability-checks"); ctx.count("global-state-checks")
         for k_ in im0:
@@ -204,14 +208,14 @@ def run(ctx):
         # --- options precedence: same call with the options as globals and no kwarg, on a REBUILT call object
         call2 = Call(entry, seed)
         solvers.options.clear(); solvers.options.update(opts)
-        r_gl = run_frozen(call2)
+        r_gl = run_frozen(call2, kkt=kk_)
         solvers.options.clear(); solvers.options.update(saved)
         ctx.count("options-precedence-checks")
         c.require(r_kw == r_gl, entry + ":options-kwarg-differs-from-global-options",
                   "call(options=O) under poisoned globals is not bit-identical to the same call with solvers.options = O "
                   "(statuses %s / %s)" % (status_of(r_kw), status_of(r_gl)), opts=opts)
         # --- repeatability: same call again on the original object (history: one solve before)
-        r_again = run_frozen(call, options=opts)
+        r_again = run_frozen(call, options=opts, kkt=kk_)
         c.require(r_again == r_kw, entry + ":second-identical-call-differs", "repeating the identical call gave a different result")
         # --- validation
         name, val = INVALID[(c.k // len(ENTRIES) + ctx.worker) % len(INVALID)]
